@@ -1145,7 +1145,7 @@ The liveness clause lifted from the per-link projection of section 7 (`tickReply
 datagrams, uplink datagrams on any link — link `j` itself included (a straggler refreshing
 `last_received` no longer postpones anything: a torn-down, previously established link is always
 timed out, `C08_timed_out_disconnected`) —, flush ticks, configuration changes, critical windows,
-injected send failures, injected bind failures for OTHER conn ids. -/
+injected send failures, injected bind failures for OTHER conn ids, verdict stamps (`Ev.stamp`). -/
 
 /-- The clock value an event carries (`none`: configuration and injection events). -/
 def evClock : Ev → Option Nat
@@ -1314,6 +1314,7 @@ theorem C08_aux_answer_sys (cid j dl : Nat) (evs : List Ev) :
         | crit d => simpa only [AnswerBy] using ha
         | failNext c => simpa only [AnswerBy] using ha
         | failBind c => simpa only [AnswerBy] using ha
+        | stamp idx weak ld ccb cct => simpa only [AnswerBy] using ha
       obtain ⟨l1, hl1, hc⟩ := C08_aux_liveInv_step cid j s l e hinv (hne e (List.mem_cons_self))
       rcases hc with ⟨hinv1, -⟩ | ⟨now, data, he, hty, -⟩
       · obtain ⟨pre, d, data, post, e1, e2, e3, l', hl', hp⟩ := ih _ l1 hinv1 hne' ha'
@@ -1353,6 +1354,9 @@ theorem C08_aux_clock_before_tick (d pt : Nat) (es : List Ev) (hm : MonoFrom d e
       simp only [MonoFrom, evClock, TickGaps] at hm hg
       exact ih d hm hg (by obtain ⟨t, ht⟩ := hex; exact ⟨t, by simpa using ht⟩)
     | failBind c =>
+      simp only [MonoFrom, evClock, TickGaps] at hm hg
+      exact ih d hm hg (by obtain ⟨t, ht⟩ := hex; exact ⟨t, by simpa using ht⟩)
+    | stamp idx weak ld ccb cct =>
       simp only [MonoFrom, evClock, TickGaps] at hm hg
       exact ih d hm hg (by obtain ⟨t, ht⟩ := hex; exact ⟨t, by simpa using ht⟩)
 
@@ -1441,6 +1445,7 @@ theorem C08_aux_live_sys (cid j T0 : Nat) (evs : List Ev) :
           | crit x => simp only [MonoFrom, evClock] at hm; exact ⟨_, hm⟩
           | failNext c => simp only [MonoFrom, evClock] at hm; exact ⟨_, hm⟩
           | failBind c => simp only [MonoFrom, evClock] at hm; exact ⟨_, hm⟩
+          | stamp idx weak ld ccb cct => simp only [MonoFrom, evClock] at hm; exact ⟨_, hm⟩
         obtain ⟨lo', hm'⟩ := hm'
         obtain ⟨pre, d, data, post, e1, e2, e3, l', hl', hp⟩ :=
           ih _ l1 pt lo' hinv1 hne' hm' hg' (by rw [hla]; exact hpt) (by rw [hla]; exact hex') hans' hpend'
@@ -1469,7 +1474,7 @@ theorem C08_aux_live_sys (cid j T0 : Nat) (evs : List Ev) :
   run: failed socket re-creation is outside the property's fault classes, section 8); (iv) no uplink is
   awaiting REG2 when a tick starts.  Everything else is arbitrary: client datagrams, uplink datagrams
   of every type on every link including `j`, flush ticks, configuration changes, critical windows,
-  injected send failures, injected bind failures for other conn ids, in any interleaving.
+  injected send failures, injected bind failures for other conn ids, verdict stamps (`Ev.stamp`), in any interleaving.
 
 Then the run has a prefix ending in a REG3 for this conn id, processed at clock `d`, after which link
 `j` is connected with window 20000, in-flight 0, empty packet log and batch queue, phase
@@ -1574,6 +1579,7 @@ theorem C08_aux_answerByB (cid dl : Nat) (es : List Ev) (h : answerByB cid dl es
     | crit d => exact ih (by simpa only [answerByB] using h)
     | failNext c => exact ih (by simpa only [answerByB] using h)
     | failBind c => exact ih (by simpa only [answerByB] using h)
+    | stamp idx weak ld ccb cct => exact ih (by simpa only [answerByB] using h)
 
 def answeredB (cid : Nat) : Sys F → List Ev → Bool
   | _, [] => true
